@@ -209,3 +209,78 @@ pub(crate) fn state_op(ev: StateEvent) {
         Kind::Push => {}
     }
 }
+
+// ---------------------------------------------------------------------------
+// Interner interleaving (concurrent compilations)
+
+use std::cell::Cell;
+use std::sync::Mutex;
+use std::sync::atomic::{AtomicBool, Ordering};
+
+thread_local! {
+    /// (tag, PRNG state, 1-in-N chance of yielding after an interner operation; 0 = never)
+    static INTERLEAVE: Cell<(u8, u64, u32)> = const { Cell::new((0, 0, 0)) };
+}
+static ORDER_LOG_ON: AtomicBool = AtomicBool::new(false);
+static ORDER_LOG: Mutex<Vec<u8>> = Mutex::new(Vec::new());
+const ORDER_LOG_CAP: usize = 4096;
+
+/// Tag this thread's interner operations with `tag` (non-zero) and let it give up
+/// the CPU after about one in `one_in` of them (PRNG seeded with `seed`).
+pub fn interleave_configure(tag: u8, seed: u64, one_in: u32) {
+    INTERLEAVE.with(|c| c.set((tag, seed | 1, one_in)));
+}
+
+pub fn interleave_disable() {
+    INTERLEAVE.with(|c| c.set((0, 0, 0)));
+}
+
+/// Start recording the order in which tagged threads pass the interner lock.
+pub fn order_log_start() {
+    ORDER_LOG.lock().unwrap_or_else(|e| e.into_inner()).clear();
+    ORDER_LOG_ON.store(true, Ordering::SeqCst);
+}
+
+/// Stop recording and return the tags in lock-acquisition order (first 4096).
+pub fn order_log_take() -> Vec<u8> {
+    ORDER_LOG_ON.store(false, Ordering::SeqCst);
+    std::mem::take(&mut *ORDER_LOG.lock().unwrap_or_else(|e| e.into_inner()))
+}
+
+/// Called while the interner lock is held.
+#[inline]
+pub(crate) fn interner_op() {
+    if !ORDER_LOG_ON.load(Ordering::Relaxed) {
+        return;
+    }
+    let tag = INTERLEAVE.with(|c| c.get().0);
+    if tag != 0 {
+        let mut log = ORDER_LOG.lock().unwrap_or_else(|e| e.into_inner());
+        if log.len() < ORDER_LOG_CAP {
+            log.push(tag);
+        }
+    }
+}
+
+/// Called after the interner lock has been released (never inside it, so no
+/// interleaving is produced that the production build cannot have).
+#[inline]
+pub(crate) fn interner_yield() {
+    let (tag, mut s, one_in) = INTERLEAVE.with(|c| c.get());
+    if one_in == 0 {
+        return;
+    }
+    s ^= s << 13;
+    s ^= s >> 7;
+    s ^= s << 17;
+    INTERLEAVE.with(|c| c.set((tag, s, one_in)));
+    if (s >> 11) % one_in as u64 == 0 {
+        if (s >> 40) & 1 == 0 {
+            std::thread::yield_now();
+        } else {
+            for _ in 0..((s >> 48) & 0x3ff) {
+                std::hint::spin_loop();
+            }
+        }
+    }
+}
